@@ -317,12 +317,13 @@ def run_c23(run):
     nontriv = {in_hash(a) for a, b in allpairs if nontrivial(a)}
     run.cov["distinct_nontrivial"] = max(0, len(nontriv) - total_vac)
     run.cov["vacuous_inadmissible_random_inputs"] = total_vac
-    run.cov["exhaustive"] = [n for n, _ in scopes]
+    run.cov["exhaustive_scopes"] = [n for n, _ in scopes]
+    run.cov["exhaustive"] = False  # the scopes in exhaustive_scopes ARE exhaustive (every input executed and decided); the run adds seeded random inputs on top
     run.cov["rule"] = ("evaluations = cases (catalog of table metadata + base version + edit sequence; materialised as real VersionEdits; every edit "
                        "encoded and decoded; applied to real Versions (a) in-memory one edit at a time, (b) decoded one at a time, (c) decoded through "
                        "one BulkVersionEdit on the base version, (d) decoded snapshot+edits through one BulkVersionEdit on the empty version) on which "
                        "TLC evaluated VeOk(in,out); distinct_nontrivial = distinct inputs with >= 2 edits and >= 2 table additions/deletions, minus the "
-                       "inadmissible count (lower bound). Scopes in 'exhaustive' are fully enumerated by TLC and every emitted input was executed; "
+                       "inadmissible count (lower bound). Scopes in 'exhaustive_scopes' are fully enumerated by TLC and every emitted input was executed; "
                        "random: seeded, see the label in design_runs.trace_validation.")
     for a, b in (allpairs[len(allpairs) // 3], rpairs[1], rpairs[len(rpairs) // 2]):
         c, o = json.loads(a)["c"], json.loads(b)["o"]
